@@ -277,6 +277,17 @@ def body_rowred(case, ctx):
 def body_colred(case, ctx):
     rows, x = base(case, ctx)
     f = case["f"]
+    der = case.get("derive")
+    if der is not None and case["dt"] != "bool":
+        # the reduced object is itself the result of a comparison with a scalar: neighbouring runs may share a truth value
+        thr = rows[0][0]
+        with np.errstate(all="ignore"):
+            d = lib(lambda: (x > thr) if der == "gt" else (x != thr))
+        if not d.ok:
+            raise Violation("column-reduce:derive-refused", got=d.brief())
+        x = d.value
+        rows = [(np.asarray(r) > thr) if der == "gt" else (np.asarray(r) != thr) for r in rows]
+        ctx.label("source:comparison-result")
     L = max(len(r) for r in rows)
     cols = [[r[j] for r in rows if len(r) > j] for j in range(L)]
     ctx.label("f:" + f)
@@ -558,6 +569,7 @@ def colred_case(draw, tier):
     fs = ["sum", "sum"] + (["mean", "counts"] if case["kind"] == "rag" else ["any"])
     case["f"] = draw(st.sampled_from(fs))
     case["axis"] = draw(st.sampled_from([0, -2]))
+    case["derive"] = draw(st.sampled_from([None, None, "gt", "ne"]))
     return case
 
 
